@@ -404,6 +404,8 @@ def climb_atoms(ctx, fn, operand, callers, depth=0):
         return out
     cfn, cbb = callers[-1][0], callers[-1][1]
     ct = cfn.term(cbb)
+    if 'args' not in ct:
+        return out        # a drop-glue frame
     for a in atoms:
         if a[0] == 'arg' and 1 <= a[1] <= len(ct['args']):
             out |= climb_atoms(ctx, cfn, ct['args'][a[1] - 1], list(callers[:-1]), depth + 1)
